@@ -29,7 +29,11 @@ func init() {
 		r := c.fresh("eq", "Bool")
 		h := c.heapSym(st, c.elemKey(types.Typ[types.Uint8]), "Int", 2)
 		c.assume(st, sImp(r, sx("=", a.ln(), b.ln())))
-		c.assume(st, sImp(r, fmt.Sprintf("(forall ((k Int)) (=> (and (<= 0 k) (< k %s)) (= (%s %s (+ %s k)) (%s %s (+ %s k)))))", a.ln(), h, a.ref(), a.off(), h, b.ref(), b.off())))
+		// equal contents, stated once per slice with the absolute index as trigger
+		c.assume(st, sImp(r, fmt.Sprintf("(forall ((j Int)) (! (=> (and (<= %s j) (< j (+ %s %s))) (= (%s %s j) (%s %s (+ %s (- j %s))))) :pattern ((%s %s j))))",
+			a.off(), a.off(), a.ln(), h, a.ref(), h, b.ref(), b.off(), a.off(), h, a.ref())))
+		c.assume(st, sImp(r, fmt.Sprintf("(forall ((j Int)) (! (=> (and (<= %s j) (< j (+ %s %s))) (= (%s %s j) (%s %s (+ %s (- j %s))))) :pattern ((%s %s j))))",
+			b.off(), b.off(), b.ln(), h, b.ref(), h, a.ref(), a.off(), b.off(), h, b.ref())))
 		// not equal: lengths differ or some witness index differs
 		w := c.fresh("neqw", "Int")
 		c.assume(st, sImp(sNot(r), sOr(sNot(sx("=", a.ln(), b.ln())),
@@ -273,4 +277,103 @@ func init() {
 		return out
 	}
 	pureExterns["(*regexp.Regexp).FindAllIndex"] = true
+}
+
+// ---------------------------------------------------------------------------
+// Typestate ghosts for the cache protocol (C13): integer ghost variables updated by external
+// calls.  "hs" counts what has been fed to the hash since the last Reset (Write: +1, io.Copy
+// into it: +100); Sum records it in "sumstate"; Seek(off, SeekStart) records "fpos".
+
+func (c *FnCtx) ghostIntGet(st *State, name string) string {
+	heapSorts["G_"+name] = "Int"
+	return sx(c.heapSym(st, "G_"+name, "Int", 1), "0")
+}
+
+func (c *FnCtx) ghostIntSet(st *State, name, val string) {
+	key := "G_" + name
+	heapSorts[key] = "Int"
+	c.heapSym(st, key, "Int", 1)
+	nw := c.newHeapVersion(key)
+	c.declared[nw] = true
+	c.emit(fmt.Sprintf("(define-fun %s ((z Int)) Int %s)", nw, val))
+	st.heaps[key] = nw
+}
+
+func init() {
+	externs["(hash.Hash).Reset"] = func(c *FnCtx, st *State, call *ast.CallExpr, recv *Val, args []Val) Val {
+		c.ghostIntSet(st, "hs", "0")
+		return Val{K: KUnit}
+	}
+	externs["(io.Writer).Write"] = func(c *FnCtx, st *State, call *ast.CallExpr, recv *Val, args []Val) Val {
+		// used for hash.Hash.Write (embedded io.Writer): one more chunk fed to the hash
+		c.ghostIntSet(st, "hs", sx("+", c.ghostIntGet(st, "hs"), "1"))
+		n := c.fresh("n", "Int")
+		c.assume(st, sAnd(sx("<=", "0", n), sx("<=", n, args[0].ln())))
+		return Val{K: KTuple, F: []Val{{K: KInt, S: n, T: types.Typ[types.Int]}, {K: KIfc, S: c.fresh("err", "Ifc")}}}
+	}
+	externs["(hash.Hash).Sum"] = func(c *FnCtx, st *State, call *ast.CallExpr, recv *Val, args []Val) Val {
+		c.ghostIntSet(st, "sumstate", c.ghostIntGet(st, "hs"))
+		t := c.typeOf(call)
+		out := c.freshVal(t, "sum")
+		c.ghost["lastSum"] = out
+		for _, f := range c.typeFacts(out) {
+			c.assume(st, f)
+		}
+		c.assume(st, sx(">=", out.ref(), st.alloc))
+		c.bumpAlloc(st)
+		c.refsBelow(st, out, st.alloc)
+		return out
+	}
+	externs["io.Copy"] = func(c *FnCtx, st *State, call *ast.CallExpr, recv *Val, args []Val) Val {
+		c.ghostIntSet(st, "hs", sx("+", c.ghostIntGet(st, "hs"), "100"))
+		c.ghostIntSet(st, "copyfrom", c.ghostIntGet(st, "fpos"))
+		n := c.fresh("n", "Int")
+		c.fact(sx(">=", n, "0"))
+		return Val{K: KTuple, F: []Val{{K: KInt, S: n, T: types.Typ[types.Int64]}, {K: KIfc, S: c.fresh("err", "Ifc")}}}
+	}
+	externs["(*os.File).Seek"] = func(c *FnCtx, st *State, call *ast.CallExpr, recv *Val, args []Val) Val {
+		// whence is io.SeekStart (0) at every call site in the repository; otherwise unknown
+		c.ghostIntSet(st, "fpos", sIte(sx("=", args[1].S, "0"), args[0].S, c.fresh("pos", "Int")))
+		return Val{K: KTuple, F: []Val{{K: KInt, S: c.fresh("pos", "Int"), T: types.Typ[types.Int64]}, {K: KIfc, S: c.fresh("err", "Ifc")}}}
+	}
+}
+
+func init() {
+	externs["(hash.Hash).Size"] = func(c *FnCtx, st *State, call *ast.CallExpr, recv *Val, args []Val) Val {
+		c.declare("hashSize", []string{"Ifc"}, "Int")
+		t := sx("hashSize", recv.S)
+		c.fact(sAnd(sx("<=", "1", t), sx("<=", t, "64")))
+		return Val{K: KInt, S: t, T: types.Typ[types.Int]}
+	}
+	pureExterns["(hash.Hash).Size"] = true
+	openLike := func(c *FnCtx, st *State, call *ast.CallExpr, recv *Val, args []Val) Val {
+		f := c.fresh("file", "Int")
+		e := c.fresh("err", "Ifc")
+		c.fact(sx(">=", f, "0"))
+		c.fact(sImp(sx("=", sx("tag", e), "0"), sx(">", f, "0")))
+		c.ghostIntSet(st, "fpos", "0")
+		tup := c.typeOf(call).(*types.Tuple)
+		fv := Val{K: KPtr, S: f, T: tup.At(0).Type()}
+		if pt, ok := tup.At(0).Type().Underlying().(*types.Pointer); ok {
+			fv.Elem = pt.Elem()
+		}
+		return Val{K: KTuple, F: []Val{fv, {K: KIfc, S: e}}}
+	}
+	externs["os.Open"] = openLike
+	externs["os.Create"] = openLike
+}
+
+// io.Reader.Read(p): reads n <= len(p) bytes into the front of p; nothing else is written.
+func init() {
+	externs["(io.Reader).Read"] = func(c *FnCtx, st *State, call *ast.CallExpr, recv *Val, args []Val) Val {
+		p := args[0]
+		key := c.elemKey(types.Typ[types.Uint8])
+		o, nw := c.havocHeap(st, key)
+		c.assume(st, fmt.Sprintf("(forall ((r Int) (i Int)) (! (=> (not (and (= r %s) (<= %s i) (< i (+ %s %s)))) (= (%s r i) (%s r i))) :pattern ((%s r i))))",
+			p.ref(), p.off(), p.off(), p.ln(), nw, o, nw))
+		n := c.fresh("nread", "Int")
+		c.assume(st, sAnd(sx("<=", "0", n), sx("<=", n, p.ln())))
+		c.ghost["lastReadN"] = Val{K: KInt, S: n, T: types.Typ[types.Int]}
+		return Val{K: KTuple, F: []Val{{K: KInt, S: n, T: types.Typ[types.Int]}, {K: KIfc, S: c.fresh("err", "Ifc")}}}
+	}
 }
